@@ -197,8 +197,13 @@ func orderAndCopies(e *Env) {
 			}
 		}
 	}
+	closeErr := g.Pct(30)
 	s := startSession(e, g.Knobs(oc),
-		func(l *simnet.Link) { l.ChunkMode = g.Intn(4); l.Window = []int{0, 0, 0, 16, 64, 300}[g.Intn(6)] })
+		func(l *simnet.Link) {
+			l.ChunkMode = g.Intn(4)
+			l.Window = []int{0, 0, 0, 16, 64, 300}[g.Intn(6)]
+			l.CloseErr = closeErr
+		})
 	longBudget := time.Duration(longLeft) * 3 * effTimeout
 	// replace the default scripted server: registration, then the stream with
 	// the welcome somewhere inside it
@@ -932,9 +937,20 @@ func misbehave(e *Env) {
 		n = g.Range(30, 90)
 	}
 	verbs := []string{"FOO", "BAR"}
+	// a background handler that panics every time, for a long stretch of events,
+	// and then behaves: each of its invocations is owed to it all the same
+	serialPanicker := !stuckAlways && g.Pct(10)
+	if serialPanicker {
+		n = g.Range(68, 100)
+		e.S.Count("probe.background-handler-panicking-at-every-event")
+	}
 	var evs []*evLine
 	for i := 0; i < n; i++ {
-		evs = append(evs, mkEvent(g, i, verbs[g.Intn(2)], g.Bool(), false))
+		v := verbs[g.Intn(2)]
+		if serialPanicker {
+			v = "FOO"
+		}
+		evs = append(evs, mkEvent(g, i, v, g.Bool(), false))
 	}
 	// built-in handlers provoked by lines with too few parameters
 	provoke := []string{"PING", ":irc.sim 433", ":irc.sim CAP", ":irc.sim 410", "AUTHENTICATE", ":u!i@h.sim NICK", ":irc.sim 908 me", "AUTHENTICATE", "AUTHENTICATE +", "AUTHENTICATE !notbase64!",
@@ -956,11 +972,20 @@ func misbehave(e *Env) {
 	for _, v := range verbs {
 		for k := g.Range(2, 5); k > 0; k-- {
 			h := &hinfo{id: len(hs), verb: v, bg: g.Pct(40), panics: map[int]int{}, blocks: map[int]bool{}, counts: map[int]int{}, doneFor: map[int]bool{}}
+			always := serialPanicker && v == "FOO" && len(hs) == 0
+			if always {
+				h.bg = true
+			}
 			for _, ev := range evs {
 				if ev.verb != v {
 					continue
 				}
 				switch {
+				case always:
+					if ev.seq < n-3 {
+						h.panics[ev.seq] = g.Intn(10)
+						panicsPlanned++
+					}
 				case g.Pct(15):
 					h.panics[ev.seq] = g.Intn(10)
 					panicsPlanned++
@@ -1538,8 +1563,29 @@ func handlerHistory(e *Env) {
 			c.HandleBG("001", client.HandlerFunc(func(*client.Conn, *client.Line) { wRuns[3]++ }))
 		})
 	}
+	// the events the client raises itself are events like any other: each
+	// invokes the foreground and the background handlers registered for it
+	var own [4]int
+	ownNames := [4]string{"REGISTER (foreground)", "REGISTER (background)", "CONNECTED (foreground)", "CONNECTED (background)"}
+	ownEvents := g.Pct(50)
+	if ownEvents {
+		s.c.HandleFunc([]string{"REGISTER", "register", "Register"}[g.Intn(3)], func(*client.Conn, *client.Line) { own[0]++ })
+		s.c.HandleBG([]string{"REGISTER", "register", "Register"}[g.Intn(3)], client.HandlerFunc(func(*client.Conn, *client.Line) { own[1]++ }))
+		s.c.HandleFunc([]string{"CONNECTED", "connected"}[g.Intn(2)], func(*client.Conn, *client.Line) { own[2]++ })
+		s.c.HandleBG([]string{"CONNECTED", "connected"}[g.Intn(2)], client.HandlerFunc(func(*client.Conn, *client.Line) { own[3]++ }))
+	}
 	if !s.connect() {
 		return
+	}
+	if ownEvents {
+		simrt.Settle(time.Second)
+		e.Check()
+		for k, n := range own {
+			if n != 1 {
+				e.Violation("not-run", "one handler is registered for %s: after Connect and the welcome it has run %d times, want 1 (runs: %v)", ownNames[k], n, own)
+				return
+			}
+		}
 	}
 	if nested {
 		simrt.Settle(time.Second)
